@@ -89,6 +89,19 @@ func (l *Laws) Validate(rd Read, or Oracle) {
 	if s := FreshZlib(zlibBytes(rd.Written)); !s.Clean() || !bytes.Equal(s.Data, rd.Written) {
 		l.fail("zl_round", rd, "")
 	}
+	// the body itself when it is the faithful output of ANOTHER legal encoder (a hand-built zlib
+	// header, a gzip header with optional fields): the standard reader takes it like its own writer's
+	if rd.Status == "good" && (rd.Enc.Window != 0 || rd.Enc.Gz) {
+		law := "zl_round_any_legal_header"
+		s := or.ZL.S
+		if rd.Coding == "gzip" {
+			law, s = "gz_round_any_legal_header", or.GZ.S
+		}
+		l.Checked[law]++
+		if !s.Clean() || !bytes.Equal(s.Data, rd.Written) {
+			l.fail(law, rd, rd.Enc.String())
+		}
+	}
 	// reset_law: a reader that has been through every earlier body of the run, Reset onto this one,
 	// behaves like a fresh reader on it — also when Reset reports an error (then every Read returns it)
 	l.Checked["reset_law"]++
@@ -483,7 +496,7 @@ func Human(c *Case) map[string]interface{} {
 	for i, r := range c.Reads {
 		reads = append(reads, map[string]interface{}{
 			"index": i, "content_type": r.Read.CT, "content_encoding": r.Read.CE, "body_hex": hex.EncodeToString(r.Read.Body),
-			"body_is":       fmt.Sprintf("%s value (%s) written by %s pretty=%v, coded %q (gzip level %d), then: %s", r.Read.Kind, r.Read.Val.Type, r.Read.API, r.Read.Pretty, r.Read.Coding, r.Read.Level, r.Read.Status),
+			"body_is":       fmt.Sprintf("%s value (%s) written by %s pretty=%v, coded %q (gzip level %d; %s), then: %s", r.Read.Kind, r.Read.Val.Type, r.Read.API, r.Read.Pretty, r.Read.Coding, r.Read.Level, r.Read.Enc, r.Read.Status),
 			"value_written": Canon(r.Read.Val.V), "target": fmt.Sprintf("%T", r.Read.Val.NewTarget()), "value_type": r.Read.Val.Type,
 			"kind": r.Read.Kind, "faithful": r.Read.Faithful, "written_hex": hex.EncodeToString(r.Read.Written),
 			"real": r.Real.Key() + " " + r.Real.Detail, "real_ledger": r.Real.Events, "alone_on_fresh_provider": r.Alone.Key(),
@@ -782,6 +795,14 @@ func Check(run *report.Run, nReads int) error {
 				run.Count("path:" + r.Tag)
 				run.Count("body:" + r.Read.Status)
 				run.Count("coding:" + map[string]string{"": "identity", "gzip": "gzip", "deflate": "deflate"}[r.Read.Coding])
+				switch {
+				case r.Read.Enc.Window != 0:
+					run.Count(fmt.Sprintf("encoder:hand-built-zlib-header,window-2^%d", r.Read.Enc.Window))
+				case r.Read.Enc.Gz:
+					run.Count("encoder:gzip-header-with-optional-fields")
+				case r.Read.Coding != "":
+					run.Count("encoder:go-writer")
+				}
 				run.Count("ct:" + strings.SplitN(r.Read.CTClass, ":", 2)[0])
 				run.Count("real:" + r.Real.Class)
 				run.Count("value:" + r.Read.Kind + "/" + r.Read.Val.Type)
